@@ -81,6 +81,22 @@ class BackendBase:
             v = v + 1j * w
         return v
 
+    def assume_gt(self, a, b, why=""):
+        """configuration assumption a > b (entrywise) - listed in the evidence; checked on the witness in float mode"""
+        self.note(f"assumption: {why}")
+        if self.sym:
+            from .array import obj as _obj
+
+            ao = _obj(_data_of(a))
+            bo = np.broadcast_to(_obj(b), ao.shape)
+            for idx in np.ndindex(*ao.shape):
+                d = Sym.of(ao[idx]) - Sym.of(bo[idx])
+                self.ctx.assume("gt", d.p, f"harness assumption: {why}")
+        else:
+            av = np.asarray(_data_of(a), dtype=float)
+            if not np.all(av > np.asarray(b, dtype=float)):
+                raise EngineError(f"witness violates the harness assumption {why}")
+
     def covers(self, *names):
         self.functions.update(names)
 
